@@ -9,10 +9,13 @@ data = json.loads(p.read_text()) if p.exists() else {"findings": []}
 prop, status, key, commit, part, case = sys.argv[1:7]
 what = " ".join(sys.argv[7:])
 if case.startswith("@"):
-    body = json.loads(Path(case[1:]).read_text()); case = body["case"]; part = body["part"]
+    cases = []
+    for f in case[1:].split(","):
+        body = json.loads(Path(f).read_text()); cases.append(body["case"]); part = body["part"]
+    wit = {"part": part, "cases": cases}
 else:
-    case = json.loads(case)
-e = {"property": prop, "status": status, "key": key, "what": what, "witness": {"part": part, "case": case}}
+    wit = {"part": part, "cases": [json.loads(case)]}
+e = {"property": prop, "status": status, "key": key, "what": what, "witness": wit}
 if status == "fixed":
     e["commit"] = commit
     e["record"] = f"fixed: property={prop} {commit} {what}"
